@@ -42,7 +42,7 @@ struct Split {
 }
 
 /// the predicate, on texts
-fn check_split(rules: &str, merged: &V, data: &V, params: &[V], orders: &[Vec<usize>], overlap_key: Option<&str>, evals: &mut u64) -> Result<usize, (String, String)> {
+fn check_split(rules: &str, merged: &V, data: &V, params: &[V], orders: &[Vec<usize>], overlap_key: Option<&str>, layout: u64, evals: &mut u64) -> Result<usize, (String, String)> {
     let dir = fresh_dir("c17");
     let rp = dir.join("r.guard");
     write_file(&rp, rules);
@@ -51,12 +51,30 @@ fn check_split(rules: &str, merged: &V, data: &V, params: &[V], orders: &[Vec<us
     let mp = dir.join("merged.json");
     write_file(&mp, &merged.to_json());
     let mut ppaths = vec![];
+    // layout bit 0: parameter files are block YAML (.yaml / .yml) instead of JSON;
+    // bit 1: -i names the directory that holds them (next to a file without a data extension,
+    //        which the documentation says is not used)
+    let as_dir = layout & 2 != 0;
     for (i, p) in params.iter().enumerate() {
+        let ext = if layout & 1 != 0 { ["yaml", "yml", "json"][i % 3] } else { "json" };
         // half of the cases: every parameter file has the same base name, in its own directory
-        let pp = if merged.nodes() % 2 == 0 { dir.join(format!("params/env{}/params.json", i)) } else { dir.join(format!("params/p{}.json", i)) };
-        write_file(&pp, &p.to_json());
+        let pp = if merged.nodes() % 2 == 0 { dir.join(format!("params/env{}/params.{}", i, ext)) } else { dir.join(format!("params/p{}.{}", i, ext)) };
+        let text = if ext == "json" {
+            p.to_json()
+        } else {
+            let zeros = [0u32; 4];
+            let mut c = Choices::new(&zeros);
+            crate::docw::write_doc(p, crate::docw::Style::YamlBlock, &mut c, false).text
+        };
+        write_file(&pp, &text);
         ppaths.push(pp.to_string_lossy().to_string());
     }
+    if as_dir {
+        let k = overlap_key.map(String::from).or_else(|| match merged { V::Map(m) => m.first().map(|(k, _)| k.clone()), _ => None }).unwrap_or_else(|| "a".into());
+        write_file(&dir.join("params/README.txt"), &format!("{{\"{}\": \"not a parameter file\"}}", k));
+    }
+    let one_order = vec![(0..params.len()).collect::<Vec<usize>>()];
+    let orders: &[Vec<usize>] = if as_dir { &one_order } else { orders };
     let rps = rp.to_string_lossy().to_string();
     let mut checked = 0;
     for mode in MODES {
@@ -70,10 +88,10 @@ fn check_split(rules: &str, merged: &V, data: &V, params: &[V], orders: &[Vec<us
             return Err((format!("generated rules rejected: {}", reference.err), "c17:generator-invalid".into()));
         }
         for order in orders {
-            let ps: Vec<String> = order.iter().map(|i| ppaths[*i].clone()).collect();
+            let ps: Vec<String> = if as_dir { vec![dir.join("params").to_string_lossy().to_string()] } else { order.iter().map(|i| ppaths[*i].clone()).collect() };
             *evals += 1;
             let r = run_mode(mode, &rps, rules, &dp.to_string_lossy(), &data.to_json(), &ps);
-            let what = format!("{:?} with -i {:?}", mode, order);
+            let what = format!("{:?} with -i {:?}{}{}", mode, order, if as_dir { " (as a directory)" } else { "" }, if layout & 1 != 0 { " (YAML parameter files)" } else { "" });
             if let Some(p) = &r.panic {
                 return Err((format!("{}: panic {}", what, p), format!("panic:{}", p.split(' ').next().unwrap_or(""))));
             }
@@ -123,7 +141,7 @@ pub fn replay(case: &J) -> CaseResult {
     let params: Vec<V> = case["params"].as_array().map(|a| a.iter().map(|p| V::parse_json(p.as_str().unwrap_or("null")).unwrap_or(V::Null)).collect()).unwrap_or_default();
     let orders: Vec<Vec<usize>> = case["orders"].as_array().map(|a| a.iter().map(|o| o.as_array().map(|x| x.iter().map(|i| i.as_u64().unwrap_or(0) as usize).collect()).unwrap_or_default()).collect()).unwrap_or_default();
     let mut ev = 0;
-    match check_split(case["rules"].as_str().unwrap_or(""), &pv("merged"), &pv("data"), &params, &orders, case["overlap_key"].as_str(), &mut ev) {
+    match check_split(case["rules"].as_str().unwrap_or(""), &pv("merged"), &pv("data"), &params, &orders, case["overlap_key"].as_str(), case["layout"].as_u64().unwrap_or(0), &mut ev) {
         Ok(_) => CaseResult::Pass(Info::default()),
         Err((msg, sig)) => CaseResult::Fail(Failure { msg, sig, case: case.clone() }),
     }
@@ -154,7 +172,11 @@ fn random_case(u: &mut Choices, sz: Size) -> CaseResult {
     let mut overlap_key = None;
     if overlap {
         // the same key in two sources (parameter/parameter or parameter/data)
-        let (k, v) = doc[u.below(doc.len())].clone();
+        let (k, mut v) = doc[u.below(doc.len())].clone();
+        // the second definition has another value in half of the cases
+        if u.chance(1, 2) {
+            v = V::s("second definition");
+        }
         let holder = parts.iter().position(|p| p.iter().any(|(kk, _)| *kk == k)).unwrap();
         let mut other = u.below(np + 1);
         if other == holder {
@@ -175,19 +197,20 @@ fn random_case(u: &mut Choices, sz: Size) -> CaseResult {
     merged.extend(parts[0].clone());
     let merged = V::Map(merged);
     let orders = if np <= 2 { super::c04::permutations(np) } else { super::c04::permutations(np).into_iter().take(4).collect() };
+    let layout = u.below(4) as u64;
     let mut evals = 0;
     let case = || {
-        json!({"rules": rules, "merged": merged.to_json(), "data": split.data.to_json(), "params": split.params.iter().map(|p| p.to_json()).collect::<Vec<_>>(),
+        json!({"layout": layout, "rules": rules, "merged": merged.to_json(), "data": split.data.to_json(), "params": split.params.iter().map(|p| p.to_json()).collect::<Vec<_>>(),
                "orders": orders, "overlap_key": overlap_key})
     };
-    match check_split(&rules, &merged, &split.data, &split.params, &orders, overlap_key.as_deref(), &mut evals) {
+    match check_split(&rules, &merged, &split.data, &split.params, &orders, overlap_key.as_deref(), layout, &mut evals) {
         Ok(n) => {
             let from_param = split.params.iter().any(|p| matches!(p, V::Map(m) if !m.is_empty()));
             let from_data = matches!(&split.data, V::Map(m) if !m.is_empty());
             CaseResult::Pass(Info {
                 nontrivial: from_param && from_data && np >= 2,
                 key: hash_case(&[&rules, &merged.to_json(), &format!("{:?}", overlap_key)]),
-                classes: vec![format!("param-files:{}", np), format!("overlap:{}", overlap_key.is_some()), format!("runs:{}", n)],
+                classes: vec![format!("layout:{}{}", if layout & 1 != 0 { "yaml" } else { "json" }, if layout & 2 != 0 { "+directory" } else { "" }), format!("param-files:{}", np), format!("overlap:{}", overlap_key.is_some()), format!("runs:{}", n)],
                 evals,
                 sample: Some(case()),
             })
@@ -198,7 +221,7 @@ fn random_case(u: &mut Choices, sz: Size) -> CaseResult {
 
 pub fn run(tier: Tier, seed: u64) -> i32 {
     let spec = EvidenceSpec {
-        rule: "A generated top-level map and a document-directed core rules file; the map's keys are distributed at random over the data file and 1-3 parameter files; validate is run with -i in every order (<=2 files) or 4 orders (3 files) in four modes (plain and --structured, with -r/-d files and with --payload) and compared with validating the pre-merged document through the same mode: same exit code, same PASS/FAIL/SKIP sets and file status. In a quarter of the cases one key is put into two sources (parameter/parameter or parameter/data): the run must exit with an error (not 0, not 19), the diagnostic must name the key, and no verdict may be printed. Non-trivial: keys come both from parameter files and from data, and there are >=2 parameter files; distinct by hash of rules, merged document and the overlapping key.".into(),
+        rule: "A generated top-level map and a document-directed core rules file; the map's keys are distributed at random over the data file and 1-3 parameter files; validate is run with -i in every order (<=2 files) or 4 orders (3 files) in four modes (plain and --structured, with -r/-d files and with --payload) and compared with validating the pre-merged document through the same mode: same exit code, same PASS/FAIL/SKIP sets and file status. Parameter files are JSON or block YAML (.yaml/.yml), given one by one or as the directory that holds them (beside a .txt file that must not be used). In a quarter of the cases one key is put into two sources, with the same or another value (parameter/parameter or parameter/data): the run must exit with an error (not 0, not 19), the diagnostic must name the key, and no verdict may be printed. Non-trivial: keys come both from parameter files and from data, and there are >=2 parameter files; distinct by hash of rules, merged document and the overlapping key.".into(),
         assumptions: vec!["verdict comparison is by rule status sets (the merge order of keys is not part of the property)".into()],
     };
     execute("C17", tier, seed, spec, &replay, &|run: &Session| {
